@@ -92,6 +92,27 @@ def run_shard(ctx, shard):
     if shard.get('edges'):
         # parts whose right-most / bottom-most occupied cells line up, with double-width characters at the edge
         for i in range(shard['n']):
+            if i % 3 == 0:
+                # a figure with a double-width character in its left-most column, one blank column right of a part
+                # whose right-most column is occupied on every row
+                kind, fig = gen.diagram(rng, circles, small=True) if rng.random() < 0.5 else ('circle', list(rng.choice(circles)))
+                fig = gen.pad_rows(list(fig), gen.width_of(fig))
+                y = rng.randrange(len(fig) + 1)
+                wide = rng.choice(['\u4e00', '\uff57', '\u1100', '\u26a1'])
+                if y == len(fig):
+                    fig.append(wide)
+                elif fig[y][:2] == '  ':
+                    fig[y] = wide + fig[y][2:]
+                else:
+                    fig = [wide] + fig
+                h = len(fig)
+                left = [''.join(rng.choice('ab-|+ ') for _ in range(rng.randint(0, 4))) + rng.choice('abk|+') for _ in range(h)]
+                w = max(len(r) for r in left)
+                left = [r.rjust(w) for r in left]
+                case = {'parts': [left, [r.rstrip() for r in fig]], 'horizontal': True, 'gaps': [rng.choice([1, 1, 2])]}
+                ctx.run_case(case)
+                ctx.tag('wide_character_at_left_edge')
+                continue
             c = rng.randint(0, 9)
             parts = []
             for _ in range(rng.choice([2, 2, 3])):
